@@ -9,7 +9,11 @@ mod c08;
 mod c09;
 mod c10;
 mod c12;
+mod c18;
 mod c20;
+
+#[global_allocator]
+static GLOBAL: c18::Counting = c18::Counting;
 
 fn main() {
     let args: Vec<String> = std::env::args().collect();
@@ -42,6 +46,8 @@ fn main() {
         ("c14", "run") => c10::run(false),
         ("c12", "gen") => c12::gen(seed, thorough),
         ("c12", "run") => c12::run(),
+        ("c18", "gen") => c18::gen(seed, thorough),
+        ("c18", "run") => c18::run(thorough),
         ("c20", "gen") => c20::gen(seed, thorough),
         ("c20", "run") => c20::run(),
         _ => {
